@@ -283,6 +283,21 @@ pub fn run_one(ch: &mut Chooser, sc: &Scn, want_log: bool) -> RunObs {
             if let Some(first) = open_at_first_quiescence.as_ref().map(|f| f.len()).filter(|f| *f != 2) {
                 push("nested-order".into(), format!("at the first quiescent point {first} interrupts are open; the first outer group has 2"));
             }
+            // the generated interrupts belong to the groups of the inner parallel act: each sees the
+            // index and value of its own (inner) group, twice over (once per outer group)
+            let mut pairs: Vec<(i64, String)> = msgs
+                .iter()
+                .filter(|m| m.key == "g0" && m.state == acts::MessageState::Created)
+                .filter_map(|m| {
+                    let (i, v) = options_of(m);
+                    i.zip(v)
+                })
+                .collect();
+            pairs.sort();
+            let want: Vec<(i64, String)> = vec![(0, "x".into()), (0, "x".into()), (1, "y".into()), (1, "y".into())];
+            if created == 4 && pairs != want {
+                push("index-value/nested".into(), format!("the interrupts generated by the inner parallel act carry ($index, $value) {pairs:?}, expected {want:?}"));
+            }
         }
         _ => {}
     }
